@@ -13,7 +13,7 @@ META = {
                         "(claim, write, send) as a nested call before EVERY atomic operation - 3 senders nested to depth 2 over a polling receiver, queue depth 1..2, "
                         "any ring position, 0..depth messages already held (so the queue can be full while claims are in flight), symbolic payloads, one spurious "
                         "weak-CAS failure per handler",
-               "thorough": "additionally: receiver as the high-priority handler; nesting depth 3 at queue depth 3; and the IR step machines (vt/ir2c.py, one shared "
+               "thorough": "additionally: receiver as the high-priority handler; and the IR step machines (vt/ir2c.py, one shared "
                            "access per step, symbolic schedule) for 2 senders + receiver at depth 1 under the interrupt discipline, and for 1 sender + receiver at depth 1 under FREE preemption (40 min, 6 GB)"},
     "outside": ["FREE preemption with two or more senders (threads on a multiprocessor): the step-machine query for 2 senders + receiver at depth 1 exceeds 10 GB, 2 senders alone at depth 2 gave no verdict in 50 min - neither is registered; the interrupt "
                 "discipline is decided both at source level and on the IR step machines (which found the uchar defect at 2 senders, depth 1, in 38 min before the fix)", "more than 3 senders, depth > 3, more than one message per sender",
@@ -29,7 +29,7 @@ def q(name, disc, ns, nr, dmax, role="prove", mutate=None, opt="-O1", timeout=36
     d = {"DISC": disc, "NS": ns, "NR": nr, "DMAX": dmax}
     d.update(extra or {})
     k = ns * 8 + nr * 7 + 2
-    return Query(name, "c04.c", "h_mq", units=["librfn/messageq.c"], defines=d, unwind=unwind or max(ns, dmax, 3) + 3, unwindset="h_mq.5:%d,h_mq.6:%d" % (k + 1, k + 1),
+    return Query(name, "c04.c", "h_mq", units=["librfn/messageq.c"], defines=d, unwind=unwind or max(ns, dmax, 3) + 3, unwindset=",".join("h_mq.%d:%d" % (i, k + 1) for i in range(3, 11)),
                  gen=GEN[opt], backend=backend, timeout=timeout, mem_gb=12, role=role, mutate=mutate, object_bits=12,
                  tolerate=[(r"arithmetic overflow on signed shl", "1 << slot in messageq (signed-shift class, see C10)")])
 
@@ -51,7 +51,6 @@ def queries(tier, kf):
         qs.append(irq("c04-canary-" + n, 3, 2, 2, role="canary", mutate=[(f, old, new)]))
     if tier == "thorough":
         qs.append(irq("c04-irq-recv-high-nest2", 3, 2, 2, extra={"RECV_IS_IRQ": None}, timeout=3600))
-        qs.append(irq("c04-irq-senders-nest3-d3", 3, 3, 3, timeout=7200))
         qs.append(gens.selftest_query("c04-ir2c-selftest"))
         qs.append(q("c04-machine-irq-2s-d1", 1, 2, 1, 1, extra={"DEPTH": 1}, backend="minisat", timeout=7200))
         qs.append(q("c04-machine-free-1s-1r-d1", 0, 1, 1, 1, extra={"DEPTH": 1}, backend="minisat", timeout=9000))
